@@ -11,9 +11,16 @@ from vmon import core, sanitize
 REVALIDATE_MAX = 150
 BENIGN_AFTER = 2
 
+def _past(ctx):
+    sh = getattr(ctx, 'shardinfo', None) or {}
+    if sh.get('shard', 0) % 2 == 1:
+        core.process_past()
+        ctx.notes['worker started after other parts of crysp had been used (process_past)'] += 1
+
 class Runner(object):
     def __init__(self, mod, ctx, pid, seed, san=False, cpu_budget=120.0):
         self.mod, self.ctx, self.pid, self.seed, self.san, self.cpu = mod, ctx, pid, seed, san, cpu_budget
+        _past(ctx)                     # odd-numbered workers: other parts of crysp have been used before (core.process_past)
         self.use_s3 = getattr(mod, 'S3', True)
         self.s3_every = getattr(mod, 'S3_EVERY', 25)
         self.base = sanitize.global_state() if self.use_s3 else None
